@@ -122,6 +122,30 @@ def tool_matrix(full, sel):
     return base + [ext[sel % len(ext)], ext[(sel * 7 + 3) % len(ext)]]
 
 
+# ------------------------------------------------------------------ statements that read further files (E10)
+FR_NUMS = [None, "0", "1", "2", "99", "100", "101", "200", "-1", "-2", "2147483647", "2147483648", "4294967280",
+           "4294967295", "4294967296", "9223372036854775807", "-9223372036854775808", "65535", "65536", "70000"]
+FR_BLOBS = {"empty.bin": b"", "one.bin": b"\x5a", "blob.bin": bytes(range(100)), "big.bin": bytes(i * 7 & 255 for i in range(70000))}
+FR_INCS = {"self.inc": b"\tnop\n\tinclude \"self.inc\"\n", "nonl.inc": b"\tnop\n\tnop", "bin.inc": bytes(range(256)) * 2,
+           "long.inc": b"\tdb " + b"1," * 3000 + b"1\n", "cr.inc": b"\tnop\r\n\tnop\r", "nul.inc": b"\tnop\n\0\0\0\n\tnop\n",
+           "a.inc": b"\tinclude \"b.inc\"\n", "b.inc": b"\tinclude \"a.inc\"\n", "open.inc": b"\tif 1\nm\tmacro\n"}
+
+
+def fileread_cases():
+    out = []
+    for blob in sorted(FR_BLOBS):
+        for off in FR_NUMS:
+            for ln in FR_NUMS:
+                if off is None and ln is not None:
+                    continue
+                out.append("\tbinclude \"%s\"%s%s" % (blob, "" if off is None else "," + off, "" if ln is None else "," + ln))
+    for inc in sorted(FR_INCS):
+        out.append("\tinclude \"%s\"" % inc)
+        out.append("\tinclude %s" % inc)
+        out.append("\tif 0\n\tinclude \"%s\"\n\tendif\n\tinclude \"%s\"\n\tinclude \"%s\"" % (inc, inc, inc))
+    return out
+
+
 # ------------------------------------------------------------------ tool option swarm (E9)
 T_RANGES = ["0x-0x", "$0-$ffff", "$100-$1ff", "0-0", "$ffffffff-$ffffffff", "5-2", "0x-$10", "$fffffff0-0x", "x", "",
             "1", "-", "0-$7fffffff", "$1000-$1003", "0x-0", "$8000-0x"]
@@ -407,6 +431,10 @@ def plan(tier, seed):
     n10 = 60000 if thorough else 4000
     for i in range(0, n10, 200):
         cases.append({"gen": "toolopt", "seed": mix(seed, "topt", i), "n": 200})
+    # E10 statements that read further files: BINCLUDE offset x length x file size, INCLUDE of odd files
+    nfr = len(fileread_cases())
+    for lo in range(0, nfr, 150):
+        cases.append({"gen": "fileread", "lo": lo, "hi": min(nfr, lo + 150)})
     # ... and every pair of option settings of p2hex / p2bin over reference files of each granularity
     for prog in ("p2hex", "p2bin"):
         npairs = len(tool_pairs(prog))
@@ -439,6 +467,7 @@ class Acc:
         self.sim_us = 0
         self.keys = []
         self.seen_cls = set()
+        self.hangs = 0
         self.sample = None
         self.digests = []
         self.shapes = set()
@@ -479,6 +508,9 @@ def run_one(sim, acc, prog, sc, origin, kind, nontrivial_off=None):
         if oracle.classify(prog, r2, san2) != cls:
             acc.bump(acc.probes, "cpu_limit_not_reproduced")
             r, san, cls = r2, san2, oracle.classify(prog, r2, san2)
+    if cls and cls.endswith("/hang/cpu-limit") and any(v["class"] == cls for v in acc.violations):
+        # an earlier input of this chunk already stands as a violation of this class (it was not exempted by its caller)
+        raise RepeatedHangs()
     if cls and cls not in acc.seen_cls:
         acc.seen_cls.add(cls)
         acc.violations.append({"class": cls, "detail": "%s %s -> %s" % (prog, " ".join(sc["argv"][:8]), r.outcome),
@@ -558,8 +590,23 @@ def field_edits(b, full=True):
     return out
 
 
+class RepeatedHangs(Exception):
+    pass
+
+
 def run_case(sim, case):
     acc = Acc()
+    try:
+        return _run_case(sim, case, acc)
+    except RepeatedHangs:
+        # the violation is on record; the remaining inputs of this chunk would each burn the CPU backstop again
+        acc.bump(acc.probes, "chunk_cut_short_after_repeated_hangs")
+        return {"violations": acc.violations, "runs": acc.runs, "sim_us": acc.sim_us, "stats": acc.stats,
+                "faults": acc.faults, "probes": acc.probes, "keys": acc.keys, "shapes": sorted(acc.shapes),
+                "sample": acc.sample, "digest": None, "observations": acc.obs, "distinct": acc.runs}
+
+
+def _run_case(sim, case, acc):
     if case.get("kind") == "explicit":
         from ..sim import scenario_from_json
         sc = scenario_from_json(case["scenario"])
@@ -852,6 +899,14 @@ def run_case(sim, case):
             sc = sc_tool(prog, argv, b, {"/w/g.p": refs["z80"]})
             run_one(sim, acc, prog, sc, "E9 %s %s" % (name, " ".join(argv)), "tool-options")
         acc.sample = {"space": "E9", "n": case["n"]}
+    elif g == "fileread":
+        stmts = fileread_cases()
+        extra = {"/w/" + k: v for k, v in list(FR_BLOBS.items()) + list(FR_INCS.items())}
+        for idx in range(case["lo"], case["hi"]):
+            src = "\tcpu %s\n\tnop\n%s\n\tnop\n" % ("z80" if idx & 1 else "68000", stmts[idx])
+            run_one(sim, acc, "asl", sc_asl(src, ["-L"] if idx % 5 == 0 else [], extra_disk=extra, max_disk=32 << 20, cpu=10),
+                    "E10 %s" % stmts[idx].strip(), "file-reading-statement")
+        acc.sample = {"space": "E10", "statements": len(stmts), "example": stmts[case["lo"]]}
     elif g == "toolpair":
         refs = ref_files(sim)
         pairs = tool_pairs(case["prog"])
